@@ -856,6 +856,36 @@ func clauseLabel(cl *Clause, i int) string {
 	return fmt.Sprintf("%d", i)
 }
 
+
+// applyGhostSets executes ghost updates (ghostset at the normal exit, xghostset at an exit by panic).
+func (ex *Exec) applyGhostSets(st *State, env *SpecEnv, sets []GhostSet) {
+	for _, gs := range sets {
+		call, ok := gs.Target.(*ECall)
+		g := (*GhostDecl)(nil)
+		if ok {
+			g = ex.ct.Ghosts[call.Fn]
+		}
+		if g == nil {
+			ex.fail("ghostset target %s is not a ghost map", gs.Src)
+		}
+		val := env.eval(gs.Value)
+		key := "G:" + g.Name
+		comp := st.comp(key, ex.ghostSort(g, env.pkg))
+		var idx []Term
+		for _, a := range call.Args {
+			idx = append(idx, ex.asKey(env.eval(a)))
+		}
+		switch len(idx) {
+		case 1:
+			st.setComp(key, ex.define(st, key, mkStore(comp, idx[0], val.T)))
+		case 2:
+			st.setComp(key, ex.define(st, key, mkStore(comp, idx[0], mkStore(mkSelect(comp, idx[0]), idx[1], val.T))))
+		default:
+			ex.fail("ghostset with %d keys", len(idx))
+		}
+	}
+}
+
 // checkExit: normal return of the function under contract.
 func (ex *Exec) checkExit(st *State, results []*Val) {
 	ex.retPaths++
@@ -889,31 +919,7 @@ func (ex *Exec) checkExit(st *State, results []*Val) {
 		}
 	}
 	// ghost updates attached to the function (executed at its normal exit)
-	for _, gs := range c.GhostSets {
-		call, ok := gs.Target.(*ECall)
-		g := (*GhostDecl)(nil)
-		if ok {
-			g = ex.ct.Ghosts[call.Fn]
-		}
-		if g == nil {
-			ex.fail("ghostset target %s is not a ghost map", gs.Src)
-		}
-		val := env.eval(gs.Value)
-		key := "G:" + g.Name
-		comp := st.comp(key, ex.ghostSort(g, env.pkg))
-		var idx []Term
-		for _, a := range call.Args {
-			idx = append(idx, ex.asKey(env.eval(a)))
-		}
-		switch len(idx) {
-		case 1:
-			st.setComp(key, ex.define(st, key, mkStore(comp, idx[0], val.T)))
-		case 2:
-			st.setComp(key, ex.define(st, key, mkStore(comp, idx[0], mkStore(mkSelect(comp, idx[0]), idx[1], val.T))))
-		default:
-			ex.fail("ghostset with %d keys", len(idx))
-		}
-	}
+	ex.applyGhostSets(st, env, c.GhostSets)
 	for i, e := range c.Ensures {
 		if e.Kind == "defines" {
 			// functional abstraction of a pure deterministic function: assumed at call sites, not checked here
